@@ -29,7 +29,8 @@ Long62 == [i \in 1..62 |-> 108]
 Names == << <<La>>, <<Lb, La>>, <<Lab, Lb, La>>, <<Lc>>, <<Lxyz, Lc>>, <<>>, <<La, Lb, La>>, << <<98>>, La>>, <<Long62, Lc>>,
             << <<97, 91, 98>>, Lb, La>>, << <<97, 123, 98>>, Lb, La>> >>
 QNames == << <<La>>, <<Lb, La>>, <<>>, <<Lab, Lb, La>> >>
-Types == <<TA, TAAAA, TNS, TCNAME, TPTR, TMX, TSOA, TDNAME, 16, 999>>
+\* 18 (AFSDB) and 33 (SRV) have a name-bearing layout elsewhere but are opaque to this library
+Types == <<TA, TAAAA, TNS, TCNAME, TPTR, TMX, TSOA, TDNAME, 16, 999, 18, 33>>
 Layouts == <<"plain", "greedy", "tails">>
 \* additional-section shapes: 0 = ordinary record, 1 = OPT
 ARShapes == << <<>>, <<0>>, <<1>>, <<0, 0>>, <<1, 0>>, <<0, 1>>, <<0, 1, 0>>, <<1, 0, 0>>, <<0, 0, 1>> >>
@@ -57,6 +58,7 @@ Rec0(j, n) ==
            ELSE IF ty = TAAAA THEN [k |-> "raw", b |-> [i \in 1..16 |-> (i + n) % 256]]
            ELSE IF ty = TDNAME THEN [k |-> "raw", b |-> RawName(dn)]
            ELSE IF ty = 16 THEN [k |-> "raw", b |-> <<2, 104, 105>>]
+           ELSE IF ty \in {18, 33} THEN [k |-> "raw", b |-> IF n % 2 = 0 THEN <<0, 1, 192, 12>> ELSE <<0, 1>>]
            ELSE [k |-> "raw", b |-> [i \in 1..(n % 4) |-> 255 - i]]
   IN [labels |-> own, type |-> ty, class |-> IF n % 5 = 4 THEN 3 ELSE 1, ttl |-> ttl, d |-> d]
 
